@@ -17,7 +17,7 @@ EXTENDS Respond, Json, IOUtils
 VARIABLES l, st, skipping, fails, cs
 
 RInit(e) == [produces |-> e.route_produces, default |-> e.default, registry |-> e.registry,
-             declared |-> <<>>, realm |-> e.realm, defrealm |-> e.defrealm, secure |-> e.secure, authkind |-> e.authkind]
+             declared |-> <<>>, realm |-> e.realm, defrealm |-> e.defrealm, rejclass |-> e.rejclass, secure |-> e.secure, authkind |-> e.authkind]
 \* the configuration as the addressed operation sees it
 Op(c, e) == [c EXCEPT !.declared = e.declared]
 
@@ -41,11 +41,17 @@ BasicFailed(c, e) ==
   /\ CASE c.secure = "basic-and-key" -> e.keycreds = "good"
        [] OTHER -> TRUE
 
+\* status of a refusal by authentication: 401, or - when wrong basic credentials were presented - the status of the
+\* error the application's basic-auth callback rejected them with (403, or 500 for an error without status);
+\* which of several rejecting schemes' errors is served is left open (C02)
+RejCode(c) == CASE c.rejclass = "403" -> 403 [] c.rejclass = "plain" -> 500 [] OTHER -> 401
+AuthCodes(c, e) == {401} \cup (IF e.creds = "bad" THEN {RejCode(c)} ELSE {})
+
 \* which stage answers: the router (no route), authentication, the Accept gate, or the handler's outcome
 Answer(c, e) ==
   IF e.target = "missing" THEN Err(404)
   ELSE IF e.target = "wrongmethod" THEN Err(405)
-  ELSE IF ~Authenticated(c, e) THEN Err(401)
+  ELSE IF ~Authenticated(c, e) THEN Err(IF e.status \in AuthCodes(c, e) THEN e.status ELSE 401)
   ELSE IF c.produces # <<>> /\ Negotiated(c, Rq(e)) = {} THEN Err(406)     \* no 406 gate when nothing is produced
   ELSE [k |-> e.outcome.k, code |-> e.outcome.code, scripted |-> e.outcome.scripted]
 
